@@ -203,6 +203,9 @@ class Chipset(object):
 
         if frame.startswith(self.SOF + b'\xFF\xFF'):
             # extended frame
+            if len(frame) < 8:
+                self.log.error("frame ends within the length field")
+                raise IOError(errno.EIO, os.strerror(errno.EIO))
             if sum(frame[5:8]) & 0xFF != 0:
                 self.log.error("frame lenght checksum error")
                 raise IOError(errno.EIO, os.strerror(errno.EIO))
@@ -212,6 +215,9 @@ class Chipset(object):
             del frame[0:8]
         elif frame.startswith(self.SOF):
             # normal frame
+            if len(frame) < 5:
+                self.log.error("frame ends within the length field")
+                raise IOError(errno.EIO, os.strerror(errno.EIO))
             if sum(frame[3:5]) & 0xFF != 0:
                 self.log.error("frame lenght checksum error")
                 raise IOError(errno.EIO, os.strerror(errno.EIO))
